@@ -446,6 +446,14 @@ def run(ctx):
     except Skip:
         pass
     try:
+        _c14a.no_string_prefix(ctx, "R03.1")      # ancestry is never decided on rendered strings, in discovery either (must_skip)
+    except Skip:
+        pass
+    try:
+        _c14a.origin_table(ctx, "R03.5")          # which directory each discovered file is recorded as applying in
+    except Skip:
+        pass
+    try:
         from . import c11 as _c11a
         _c11a.ignore_files_consulted(ctx, "R03.4")
     except Skip:
